@@ -385,6 +385,16 @@ def observe_map(m, meta, h, step_i, what):
             v6 = meta.cells(m[[int(p) for p in allpix[:7]]])
             if v6 != vals[:2 * meta.nfields * 7]:
                 errs.append('__getitem__(list) differs')
+            # positions of the valid pixels: must be the centres of exactly the valid pixels, in listing order
+            vlon, vlat = m.valid_pixels_pos(lonlat=True)
+            if [int(p) for p in hpg.angle_to_pixel(meta.ns, vlon, vlat)] != [int(p) for p in m.valid_pixels]:
+                errs.append('valid_pixels_pos does not give the centres of valid_pixels')
+            if meta.kind == 'wide' and meta.npix <= 4096:
+                for bits in ([0], [meta.width * 8 - 1], [1, 8] if meta.width > 1 else [1]):
+                    a = np.asarray(m.check_bits_pix(allpix, bits))
+                    b = np.asarray(m.check_bits_pos(lon, lat, bits, lonlat=True))
+                    if not np.array_equal(a, b):
+                        errs.append('check_bits_pos differs from check_bits_pix')
         except Exception as e:  # noqa
             errs.append('read path raised %s: %s' % (type(e).__name__, e))
         if errs:
